@@ -495,7 +495,17 @@ def produce(case):
     try:
         if route == "direct":
             body, ctype = urllib3.encode_multipart_formdata(fields, boundary=explicit)
-            return body, ctype, {"pin_calls": pin.calls}
+            extra = {"pin_calls": list(pin.calls) if isinstance(pin.calls, list) else pin.calls}
+            # encoding is a pure function of the fields: the SAME field objects (RequestField instances included)
+            # encoded once more with the same boundary must give the same bytes
+            if isinstance(ctype, str) and "boundary=" in ctype and isinstance(fields, (list, tuple, dict)):
+                b2 = ctype.split("boundary=", 1)[1]
+                try:
+                    body2, _ = urllib3.encode_multipart_formdata(fields, boundary=b2)
+                    extra["again"] = None if body2 == body else body2
+                except Exception as e:  # noqa: BLE001
+                    extra["again"] = e
+            return body, ctype, extra
         rec = _Recorder(headers=dict(POOL_HEADERS))
         hdrs = HDR_KINDS[case.get("hdrs", "none")]
         hdrs = dict(hdrs) if hdrs is not None else None
@@ -550,6 +560,10 @@ def evaluate(case):
             ctype = "multipart/form-data; boundary=" + explicit
     status, viols, info = check_output(case, body, ctype, explicit)
     viols = pre + viols
+    if extra.get("again") is not None and not viols:
+        ag = extra["again"]
+        viols.append(("re-encoding-differs", dict(base, shapes=sorted({shape_of(s_) for s_ in case["fields"]})),
+                      ag if isinstance(ag, BaseException) else ag[:300], "the same bytes as the first encoding of the same field objects"))
     if viols:
         status = "viol"
     obs.update(info)
